@@ -29,7 +29,7 @@ use xgen::*;
 pub fn spec() -> PropSpec {
     PropSpec {
         id: "C20",
-        rule: "cases: x built as t^2+d with t in {2^j, 2^j+-1, 2^j+-small, random of every bit length <= BITS/2, 2^(BITS/2)-1-k, limb patterns, small} (j over the whole range, half of the draws in the top quarter) and d in {-1,0,+1,-2,+2,2t,2t-1,t,random<=2t}; plus 0..3, 2^BITS-1-k, values around 2^(BITS-1), 2^k / 2^k+-1 for every k, limb patterns (shape L), random bit lengths (shape T), the generic shape mixture; a quarter of the cases zero-padded inside a wider container. Every sqrt form of the width (ct, vartime, wrapping aliases, checked forms, SquareRoot and Integer trait paths; fixed cases also run BoxedUint on the same limbs) is checked on each x with the predicate s^2 <= x < (s+1)^2 (BigUint), checked forms some <=> x = s^2. non-trivial: x >= 4 and ( x within distance 1 of a perfect square [x = s^2, s^2+1 or (s+1)^2-1] or x within distance 1 of a power of two [x in {2^k-1, 2^k, 2^k+1}: the bit length, hence the parity that picks the initial guess, flips next to x] or an oracle-side model of the documented Newton iteration needs >= LOG2_BITS rounds before min(x_(n-1), x_n) is the floor root ); distinct by (container limbs, x limbs).",
+        rule: "cases: x built as t^2+d with t in {2^j, 2^j+-1, 2^j+-small, random of every bit length <= BITS/2, 2^(BITS/2)-1-k, limb patterns, small} (j over the whole range, half of the draws in the top quarter) and d in {-1,0,+1,-2,+2,2t,2t-1,t,random<=2t}; plus 0..3, 2^BITS-1-k, values around 2^(BITS-1), 2^k / 2^k+-1 for every k, limb patterns (shape L), random bit lengths (shape T), the generic shape mixture; a quarter of the cases zero-padded inside a wider container. Every sqrt form of the width (ct, vartime, wrapping aliases, checked forms, SquareRoot and Integer trait paths; fixed cases also run BoxedUint on the same limbs) is checked on each x with the predicate s^2 <= x < (s+1)^2 (BigUint), checked forms some <=> x = s^2. non-trivial: x >= 4 and ( x within distance 1 of a perfect square [x = s^2, s^2+1 or (s+1)^2-1] or x within distance 1 of a power of two [x in {2^k-1, 2^k, 2^k+1}: the bit length, hence the parity that picks the initial guess, flips next to x] or an oracle-side model of the documented Newton iteration needs >= LOG2_BITS rounds before min(x_(n-1), x_n) is the floor root ); surface/* sub-checks: the same cases and rule at 6, 10, 12, 14, 17, 24 limbs (fixed), 21..=40 limbs (boxed), through the Deref / UFCS routes of NonZero and Odd wrappers, and const evaluation at 5, 6, 7 limbs. distinct by (container limbs, x limbs).",
         assumptions: vec![
             "num-bigint multiplication / addition / comparison are correct (num-bigint's sqrt is not used)".into(),
             "bridging uses from_words / as_words only".into(),
@@ -327,7 +327,10 @@ fn const_rows() -> Vec<ConstRow> {
 }
 
 fn const_case(t: &mut Tape, c: &mut Case) -> CaseResult {
-    let rows = const_rows();
+    const_case_rows(&const_rows(), t, c)
+}
+
+fn const_case_rows(rows: &[ConstRow], t: &mut Tape, c: &mut Case) -> CaseResult {
     let i = t.index(rows.len());
     let row = &rows[i];
     c.text("constant", row.name);
@@ -350,6 +353,9 @@ fn const_case(t: &mut Tape, c: &mut Case) -> CaseResult {
 
 // ------------------------------------------------------------------------------------------------
 
+// (declared here: after `const_row!`, which the module uses)
+mod surface;
+
 macro_rules! fixed {
     ($v:ident; $(($n:literal, $q:expr)),*) => { $(
         $v.push(SubCheck::new(format!("fixed/sqrt/U{}", 64 * $n), $q, fixed_case::<$n>).tape(24 + 2 * $n));
@@ -366,5 +372,6 @@ fn subchecks(ctx: &Ctx) -> Vec<SubCheck> {
     }
     v.push(SubCheck::new("boxed/sqrt/1..=20", 300000, boxed_case(20)).tape(72));
     v.push(SubCheck::new("const/sqrt", 200, const_case).tape(4).thorough(1));
+    v.extend(surface::subchecks(ctx));
     v
 }
